@@ -28,6 +28,11 @@ impl Reg {
     }
 }
 
+/// literal constants usable from both instantiations
+pub trait Lit: Sized { fn lit(x: f64) -> Self; fn fold_constants() {} }
+impl Lit for Sym { fn lit(x: f64) -> Sym { Sym::c(x) } fn fold_constants() { crate::sym::set_fold(true); } }
+impl Lit for f64 { fn lit(x: f64) -> f64 { x } }
+
 /// abstract function symbols usable from both instantiations
 pub trait Uf: Sized + Copy { fn uf(id: u32, args: &[Self]) -> Self; }
 impl Uf for Sym { fn uf(id: u32, args: &[Sym]) -> Sym { Sym::fun(id, args) } }
